@@ -192,6 +192,15 @@ def main(argv=None):
                 V.undecided.append(f"obligation {nm} (proved on the pinned tree) was not generated in this run")
 
     # 3. verdict per failing obligation -----------------------------------------------------------------
+    native_items = []
+    for nf in getattr(V, "native_failures", []):
+        for item in nf["info"].get("failing", [{"name": nf["step"]["name"]}]):
+            nm = f"{nf['step']['name']}/{item['name']}"
+            item = dict(item)
+            item.setdefault("violations", [item])
+            ob_status[nm] = "refuted"
+            ob_detail[nm] = dict(name=nm, status="refuted", model=json.dumps(item, default=repr)[:2000], task=nf["step"]["name"], time=0, native=True, witness=item)
+            native_items.append(nm)
     all_findings = load_findings()
     findings = [f for f in all_findings if f["property"] == pid or pid in f.get("also", [])]
     # a finding listed for another property still covers a failing obligation of a shared contract
@@ -203,27 +212,13 @@ def main(argv=None):
     for nm in failing:
         for f in findings:
             if f["status"] == "open" and any(_match(nm, pat) for pat in f.get("obligations", [])):
+                if nm in native_items:  # the failing native clause is itself the witness
+                    covered_by[nm] = f
+                    break
                 w = run_witness(f, wcache)
                 if w["rc"] == 1:
                     covered_by[nm] = f
                     break
-    # native (R-mode) failures reported by conformance-style steps
-    for nf in getattr(V, "native_failures", []):
-        for item in nf["info"].get("failing", [{"name": nf["step"]["name"]}]):
-            nm = f"{nf['step']['name']}/{item['name']}"
-            ob_status[nm] = "refuted"
-            item = dict(item)
-            item.setdefault("violations", item.get("violations", [item]))
-            ob_detail[nm] = dict(name=nm, status="refuted", model=json.dumps(item)[:2000], task=nf["step"]["name"], time=0, native=True, witness=item)
-            hit = None
-            for f in findings:
-                if f["status"] == "open" and any(_match(nm, pat) for pat in f.get("obligations", [])):
-                    hit = f
-                    break
-            if hit is not None:
-                covered_by[nm] = hit
-            failing.append(nm)
-
     printed = set()
     for f in findings:
         w = run_witness(f, wcache)
